@@ -18,6 +18,7 @@ from result import Result
 from paths import Renderer
 from loops import normal_for, enclosing_fors
 import effects as FX
+import setters
 
 G = 'ezc3d::ParametersNS::GroupNS::Group'
 PR = 'ezc3d::ParametersNS::GroupNS::Parameter'
@@ -577,4 +578,5 @@ def run(prog, tier):
     longest_string_rule(prog, res)
     consistency_width_rule(prog, res)
     lock_rule(prog, res)
+    setters.rule(prog, res, {G, PR}, minimum=3)
     return res
